@@ -262,21 +262,23 @@ spif_mbuff_init_from_fd(spif_mbuff_t self, int fd)
     lseek(fd, file_pos, SEEK_SET);
     if (file_size < 0) {
         spif_byteptr_t p;
-        size_t cnt = 0;
+        ssize_t cnt = 0;
 
         D_OBJ(("Unable to seek to EOF -- %s.\n", strerror(errno)));
         self->size = buff_inc;
         self->len = 0;
         self->buff = (spif_byteptr_t) MALLOC(self->size);
 
-        for (p = self->buff; (cnt = read(fd, p, buff_inc)) > 0; p += buff_inc) {
-            self->len += cnt;
-            if (cnt < buff_inc) {
-                break;
-            } else {
-                self->size += buff_inc;
-                self->buff = (spif_byteptr_t) REALLOC(self->buff, self->size);
+        /* Read until end of file.  A short count only means that no more data
+           was available just now, and an interrupted call is simply repeated. */
+        for (p = self->buff; ((cnt = read(fd, p, buff_inc)) > 0) || ((cnt < 0) && (errno == EINTR)); p = self->buff + self->len) {
+            if (cnt < 0) {
+                continue;
             }
+            self->len += cnt;
+            /* Keep room for one more chunk behind the data. */
+            self->size = self->len + buff_inc;
+            self->buff = (spif_byteptr_t) REALLOC(self->buff, self->size);
         }
         self->size = self->len;
         if (self->size) {
